@@ -301,6 +301,27 @@ macro_rules! partial_iter_lines {
         let a = it.nth(1).map(|c| hex(&c.tob()));
         let b = it.nth_back(0).map(|c| hex(&c.tob()));
         v.push(format!("iter nth1={:?} nthback0={:?} rest={}", a, b, it.map(|c| hex(&c.tob())).collect::<Vec<_>>().join(",")));
+        {
+            // size_hint brackets the true count, fresh and after a step from each end
+            let mut it = p.components();
+            let n = it.clone().count();
+            let (lo, hi) = it.size_hint();
+            let mut sane = lo <= n && hi.map_or(true, |h| n <= h);
+            it.next();
+            it.next_back();
+            let m = it.clone().count();
+            let (lo, hi) = it.size_hint();
+            sane = sane && lo <= m && hi.map_or(true, |h| m <= h);
+            let mut i2 = p.iter();
+            let k = i2.clone().count();
+            let (lo, hi) = i2.size_hint();
+            sane = sane && lo <= k && hi.map_or(true, |h| k <= h) && k == n;
+            i2.next_back();
+            let k2 = i2.clone().count();
+            let (lo, hi) = i2.size_hint();
+            sane = sane && lo <= k2 && hi.map_or(true, |h| k2 <= h);
+            v.push(format!("size_hint-sane={}", sane));
+        }
         $t.push(format!("partial-iters {}", v.join(" ; ")));
         $t.push(format!("iter-states components {} ; iter {}", iq_states(p.components()), iq_states(p.iter())));
     }};
@@ -630,7 +651,7 @@ pub fn c14(ctx: &mut Ctx, tier: &str, seed: u64) {
                 let tu = t_utf8(win, st, a);
                 ctx.case(multibyte && comps(win, s).len() >= 2, (win, s, i));
                 ctx.tally(&format!("{}:{}", e, if multibyte { "multibyte" } else { "ascii" }));
-                if tb != tu || tu.iter().any(|l| l.contains("!INVALID") || l == "PANIC") {
+                if tb != tu || tu.iter().any(|l| l.contains("!INVALID") || l == "PANIC" || l.contains("size_hint-sane=false")) {
                     let d = if tu.iter().any(|l| l == "PANIC") { "UTF-8 family panicked".to_string() } else { first_diff(&tb, &tu) };
                     // replay: the model-side op closest to the first differing operation
                     let opname = d.split('`').nth(1).unwrap_or("").split(' ').next().unwrap_or("").to_string();
@@ -961,13 +982,13 @@ pub fn c15(ctx: &mut Ctx, tier: &str, seed: u64) {
                 let tb = no_x(&t_bytes(win, s, a));
                 let tt = t_typed(win, s, a);
                 ctx.case(comps(win, s).len() >= 2, (win, s, i));
-                if tb != tt || tt.iter().any(|l| l.contains("!VARIANT") || l == "PANIC") {
+                if tb != tt || tt.iter().any(|l| l.contains("!VARIANT") || l == "PANIC" || l.contains("size_hint-sane=false")) {
                     let d = tt.iter().find(|l| l.contains("!VARIANT")).map(|l| format!("variant changed in `{}`", l)).unwrap_or_else(|| first_diff(&tb, &tt));
                     ctx.fail("typed-wrapper-transparent", None, format!("comps {} {}", e, hex(s)), format!("arg \"{}\": {}", lossy(a), d));
                 }
                 if let (Ok(st), Ok(sa)) = (std::str::from_utf8(s), std::str::from_utf8(a)) {
                     let t8 = t_typed8(win, st, sa);
-                    if tb != t8 || t8.iter().any(|l| l.contains("!VARIANT") || l == "PANIC") {
+                    if tb != t8 || t8.iter().any(|l| l.contains("!VARIANT") || l == "PANIC" || l.contains("size_hint-sane=false")) {
                         let d = t8.iter().find(|l| l.contains("!VARIANT")).map(|l| format!("variant changed in `{}`", l)).unwrap_or_else(|| first_diff(&tb, &t8));
                         ctx.fail("utf8-typed-wrapper-transparent", None, format!("comps {} {}", e, hex(s)), format!("arg \"{}\": {}", lossy(a), d));
                     }
@@ -1109,7 +1130,13 @@ pub fn c15(ctx: &mut Ctx, tier: &str, seed: u64) {
                 UnixPathBuf::try_from(tb.clone()).map(|x| x.into_vec()).ok() == Some(s.clone()) && WindowsPathBuf::try_from(tb.clone()).is_err() && TypedPathBuf::Unix(UnixPathBuf::from(s.as_slice())) == tb
             };
             ctx.evals += 1;
-            if !ok || tb.to_path().is_windows() != win || tb.to_path().to_path_buf() != tb {
+            // a refused conversion hands the original value back
+            let payload_ok = if win {
+                matches!(UnixPathBuf::try_from(tb.clone()), Err(ref o) if *o == tb && o.is_windows())
+            } else {
+                matches!(WindowsPathBuf::try_from(tb.clone()), Err(ref o) if *o == tb && o.is_unix())
+            };
+            if !ok || !payload_ok || tb.to_path().is_windows() != win || tb.to_path().to_path_buf() != tb {
                 ctx.fail("typed-round-trips", None, format!("comps {} {}", gen::e(win), hex(s)), String::new());
             }
         }
